@@ -95,6 +95,9 @@ def observe(case, rng):
         cut = len(pline) + len(b"GET /first HTTP/1.1\r\nHost: h\r\n\r\n")
         segs = [data[:cut], data[cut:]]
     peer = (PEER6 if rng.random() < 0.4 else PEER)[case["peer"]]
+    if case["peer"] == "unlisted" and isinstance(peer, tuple) and len(peer) == 2 and rng.random() < 0.5:
+        # unlisted addresses whose text contains / ends with / extends a listed one
+        peer = (rng.choice(["110.0.0.1", "210.0.0.1", "10.0.0.11", "10.0.0.10", "1.10.0.0.1"[2:] + "0", "10.0.0.2"]), peer[1])
     if case["pp"] and case["wk"] in ("async", "gthread") and rng.random() < 0.5:
         # another connection of the same worker, from a permitted proxy, announced a client address just before:
         # it must not leak into this connection
